@@ -1853,6 +1853,421 @@ func tier3ReadPartitions(r *rand.Rand, n int) {
 	}
 }
 
+// ---------------------------------------------------------------- tier 2b: two clusters behind one RoundTripper
+
+// clusterRT answers ListOffsets / Metadata / OffsetFetch / OffsetCommit from one cluster's state.
+type clusterRT struct {
+	name string
+	c    *cluster
+}
+
+func (k *clusterRT) metadata() *metadata.Response {
+	res := &metadata.Response{ClusterID: "cluster-" + k.name, ControllerID: 0}
+	ids := []int32{}
+	for id := range k.c.brokers {
+		ids = append(ids, id)
+	}
+	sort.Slice(ids, func(a, b int) bool { return ids[a] < ids[b] })
+	for _, id := range ids {
+		b := k.c.brokers[id]
+		res.Brokers = append(res.Brokers, metadata.ResponseBroker{NodeID: b.ID, Host: k.name + "-" + b.Host, Port: b.Port, Rack: b.Rack})
+	}
+	names := []string{}
+	for name := range k.c.topics {
+		names = append(names, name)
+	}
+	sort.Strings(names)
+	for _, name := range names {
+		t := metadata.ResponseTopic{Name: name}
+		for p := 0; p < len(k.c.topics[name]); p++ {
+			st := k.c.topics[name][int32(p)]
+			t.Partitions = append(t.Partitions, metadata.ResponsePartition{PartitionIndex: int32(p), LeaderID: st.leader, ReplicaNodes: []int32{st.leader}, IsrNodes: []int32{st.leader}})
+		}
+		res.Topics = append(res.Topics, t)
+	}
+	return res
+}
+
+func (k *clusterRT) RoundTrip(ctx context.Context, addr net.Addr, req kafka.Request) (kafka.Response, error) {
+	switch m := req.(type) {
+	case *listoffsets.Request:
+		return (&fakeRT{c: k.c}).RoundTrip(ctx, addr, req)
+	case *metadata.Request:
+		res := k.metadata()
+		if m.TopicNames != nil {
+			var ts []metadata.ResponseTopic
+			for _, n := range m.TopicNames {
+				found := false
+				for _, t := range res.Topics {
+					if t.Name == n {
+						ts, found = append(ts, t), true
+					}
+				}
+				if !found {
+					ts = append(ts, metadata.ResponseTopic{Name: n, ErrorCode: 3})
+				}
+			}
+			res.Topics = ts
+		}
+		return res, nil
+	case *offsetfetch.Request:
+		return k.c.fetchCommitted(m.GroupID, m, nil), nil
+	case *offsetcommit.Request:
+		res := &offsetcommit.Response{}
+		for _, t := range m.Topics {
+			rtp := offsetcommit.ResponseTopic{Name: t.Name}
+			for _, p := range t.Partitions {
+				if k.c.committed[m.GroupID] == nil {
+					k.c.committed[m.GroupID] = map[string]map[int32]commitState{}
+				}
+				if k.c.committed[m.GroupID][t.Name] == nil {
+					k.c.committed[m.GroupID][t.Name] = map[int32]commitState{}
+				}
+				k.c.committed[m.GroupID][t.Name][p.PartitionIndex] = commitState{p.CommittedOffset, p.CommittedMetadata}
+				rtp.Partitions = append(rtp.Partitions, offsetcommit.ResponsePartition{PartitionIndex: p.PartitionIndex})
+			}
+			res.Topics = append(res.Topics, rtp)
+		}
+		return res, nil
+	}
+	return nil, &servedErr{k.name}
+}
+
+// servedErr is what the clusters answer to the APIs they do not implement: the call
+// fails, and the error tells which cluster was asked.
+type servedErr struct{ cluster string }
+
+func (e *servedErr) Error() string { return "served by cluster " + e.cluster }
+
+// addrRT is one RoundTripper in front of several clusters, keyed by the address of the call.
+type addrRT struct {
+	clusters map[string]*clusterRT
+	served   []string
+}
+
+func (a *addrRT) RoundTrip(ctx context.Context, addr net.Addr, req kafka.Request) (kafka.Response, error) {
+	k, ok := a.clusters[addr.String()]
+	if !ok {
+		a.served = append(a.served, "?")
+		return nil, fmt.Errorf("addrRT: no cluster at %v", addr)
+	}
+	a.served = append(a.served, k.name)
+	return k.RoundTrip(ctx, addr, req)
+}
+
+// twoClusters: the same topics and partitions in both, but different leaders, offsets
+// (B's are 1000000 higher), timestamps index and committed positions.
+func twoClusters(r *rand.Rand) (*cluster, *cluster) {
+	a := genCluster(r)
+	a.unreachable = map[int32]bool{}
+	b := &cluster{topics: map[string]map[int32]*partState{}, brokers: map[int32]protocol.Broker{}, unreachable: map[int32]bool{},
+		committed: map[string]map[string]map[int32]commitState{}, commitErr: map[string]int16{}, throttle: a.throttle + 7}
+	nb := 1 + r.Intn(4)
+	for i := 0; i < nb; i++ {
+		b.brokers[int32(i)] = protocol.Broker{ID: int32(i), Host: fmt.Sprintf("h%d", i), Port: int32(19092 + i)}
+	}
+	names := []string{}
+	for name := range a.topics {
+		names = append(names, name)
+	}
+	sort.Strings(names)
+	for _, name := range names {
+		b.topics[name] = map[int32]*partState{}
+		for p := 0; p < len(a.topics[name]); p++ {
+			sa := a.topics[name][int32(p)]
+			sa.errCode = 0
+			sb := &partState{start: sa.start + 1000000, end: sa.end + 1000000 + int64(r.Intn(50)), leader: int32(r.Intn(nb)), epoch: sa.epoch + 1}
+			for _, e := range sa.index {
+				sb.index = append(sb.index, tsEntry{e.ts + 5, e.off + 1000000})
+			}
+			b.topics[name][int32(p)] = sb
+			for _, g := range []string{"g"} {
+				for ci, c := range []*cluster{a, b} {
+					if c.committed[g] == nil {
+						c.committed[g] = map[string]map[int32]commitState{}
+					}
+					if c.committed[g][name] == nil {
+						c.committed[g][name] = map[int32]commitState{}
+					}
+					c.committed[g][name][int32(p)] = commitState{int64(ci)*1000000 + int64(r.Intn(1000)), []string{"ma", "mb"}[ci]}
+				}
+			}
+		}
+	}
+	return a, b
+}
+
+var addrA, addrB = kafka.TCP("cluster-a:9092"), kafka.TCP("cluster-b:9092")
+
+func addrOf(x string) net.Addr {
+	switch x {
+	case "a":
+		return addrA
+	case "b":
+		return addrB
+	}
+	return nil
+}
+
+// tier2Addresses: every Client query in the address configurations {client only, request
+// only, both the same, both different, neither}: the answer must be the state of the
+// cluster at the request's address when it has one, else at the client's.
+func tier2Addresses(r *rand.Rand, n int) {
+	configs := [][2]string{{"-", "a"}, {"-", "b"}, {"a", "-"}, {"b", "-"}, {"a", "a"}, {"b", "b"}, {"a", "b"}, {"b", "a"}, {"-", "-"}}
+	cfgName := func(req, cl string) string {
+		switch {
+		case req == "-" && cl == "-":
+			return "addr=neither"
+		case req == "-":
+			return "addr=client-only"
+		case cl == "-":
+			return "addr=request-only"
+		case req == cl:
+			return "addr=both-same"
+		}
+		return "addr=both-different"
+	}
+	for i := 0; i < n; i++ {
+		ca, cb := twoClusters(r)
+		names := []string{}
+		for name := range ca.topics {
+			names = append(names, name)
+		}
+		sort.Strings(names)
+		topic := names[r.Intn(len(names))]
+		part := r.Intn(len(ca.topics[topic]))
+		for _, cfg := range configs {
+			if i > 0 && r.Intn(3) != 0 {
+				continue
+			}
+			req, cl := cfg[0], cfg[1]
+			ctx := context.Background()
+			run := func(api string, call func(c *kafka.Client, addr net.Addr) (string, error)) {
+				rt := &addrRT{clusters: map[string]*clusterRT{addrA.String(): {"a", ca}, addrB.String(): {"b", cb}}}
+				client := &kafka.Client{Addr: addrOf(cl), Transport: rt}
+				var from string
+				var err error
+				func() {
+					defer func() {
+						if e := recover(); e != nil {
+							err = fmt.Errorf("panic: %v", e)
+						}
+					}()
+					from, err = call(client, addrOf(req))
+				}()
+				served := strings.Join(dedup(rt.served), "")
+				res := ""
+				var se *servedErr
+				switch {
+				case err == nil:
+					res = served + "/" + from
+				case errors.As(err, &se):
+					res = served + "/-"
+				case strings.Contains(err.Error(), "no address was given") && len(rt.served) == 0:
+					res = "err"
+				default:
+					res = served + "/?" + strings.ReplaceAll(err.Error(), " ", "_")
+				}
+				emit("addr", api+" "+req+" "+cl, res, []string{cfgName(req, cl), "api=" + api})
+			}
+			which := func(isA, isB bool) string {
+				switch {
+				case isA && !isB:
+					return "a"
+				case isB && !isA:
+					return "b"
+				case isA && isB:
+					return "ab"
+				}
+				return "none"
+			}
+			run("ListOffsets", func(c *kafka.Client, addr net.Addr) (string, error) {
+				res, err := c.ListOffsets(ctx, &kafka.ListOffsetsRequest{Addr: addr, Topics: map[string][]kafka.OffsetRequest{topic: {kafka.FirstOffsetOf(part), kafka.LastOffsetOf(part)}}})
+				if err != nil {
+					return "", err
+				}
+				po := res.Topics[topic][0]
+				sa, sb := ca.topics[topic][int32(part)], cb.topics[topic][int32(part)]
+				return which(po.FirstOffset == sa.start && po.LastOffset == sa.end && po.Error == nil, po.FirstOffset == sb.start && po.LastOffset == sb.end && po.Error == nil), nil
+			})
+			run("Metadata", func(c *kafka.Client, addr net.Addr) (string, error) {
+				res, err := c.Metadata(ctx, &kafka.MetadataRequest{Addr: addr, Topics: []string{topic}})
+				if err != nil {
+					return "", err
+				}
+				leader := -1
+				if len(res.Topics) == 1 && len(res.Topics[0].Partitions) > part {
+					leader = res.Topics[0].Partitions[part].Leader.ID
+				}
+				return which(res.ClusterID == "cluster-a" && leader == int(ca.topics[topic][int32(part)].leader) && len(res.Brokers) == len(ca.brokers),
+					res.ClusterID == "cluster-b" && leader == int(cb.topics[topic][int32(part)].leader) && len(res.Brokers) == len(cb.brokers)), nil
+			})
+			run("OffsetFetch", func(c *kafka.Client, addr net.Addr) (string, error) {
+				res, err := c.OffsetFetch(ctx, &kafka.OffsetFetchRequest{Addr: addr, GroupID: "g", Topics: map[string][]int{topic: {part}}})
+				if err != nil {
+					return "", err
+				}
+				p := res.Topics[topic][0]
+				return which(p.CommittedOffset == ca.committed["g"][topic][int32(part)].off && p.Metadata == "ma", p.CommittedOffset == cb.committed["g"][topic][int32(part)].off && p.Metadata == "mb"), nil
+			})
+			consumerOffsets := run
+			if req != "-" {
+				consumerOffsets = func(string, func(*kafka.Client, net.Addr) (string, error)) {} // TopicAndGroup has no address of its own
+			}
+			consumerOffsets("ConsumerOffsets", func(c *kafka.Client, addr net.Addr) (string, error) {
+				res, err := c.ConsumerOffsets(ctx, kafka.TopicAndGroup{Topic: topic, GroupId: "g"})
+				if err != nil {
+					return "", err
+				}
+				isA, isB := len(res) == len(ca.topics[topic]), len(res) == len(cb.topics[topic])
+				for p, off := range res {
+					isA = isA && off == ca.committed["g"][topic][int32(p)].off
+					isB = isB && off == cb.committed["g"][topic][int32(p)].off
+				}
+				return which(isA, isB), nil
+			})
+			run("OffsetCommit", func(c *kafka.Client, addr net.Addr) (string, error) {
+				mark := int64(5000000 + r.Intn(1000))
+				res, err := c.OffsetCommit(ctx, &kafka.OffsetCommitRequest{Addr: addr, GroupID: "gc", GenerationID: 1, MemberID: "m", Topics: map[string][]kafka.OffsetCommit{topic: {{Partition: part, Offset: mark}}}})
+				if err != nil {
+					return "", err
+				}
+				if len(res.Topics[topic]) != 1 || res.Topics[topic][0].Error != nil {
+					return "none", nil
+				}
+				wa := ca.committed["gc"][topic][int32(part)].off == mark
+				wb := cb.committed["gc"][topic][int32(part)].off == mark
+				delete(ca.committed, "gc")
+				delete(cb.committed, "gc")
+				return which(wa, wb), nil
+			})
+			// the other Client methods: the clusters do not implement them, the error tells which one was asked
+			type gen = func(c *kafka.Client, addr net.Addr) (string, error)
+			others := []struct {
+				api  string
+				call gen
+			}{
+				{"CreateTopics", func(c *kafka.Client, a net.Addr) (string, error) {
+					_, err := c.CreateTopics(ctx, &kafka.CreateTopicsRequest{Addr: a})
+					return "", err
+				}},
+				{"DeleteTopics", func(c *kafka.Client, a net.Addr) (string, error) {
+					_, err := c.DeleteTopics(ctx, &kafka.DeleteTopicsRequest{Addr: a})
+					return "", err
+				}},
+				{"CreatePartitions", func(c *kafka.Client, a net.Addr) (string, error) {
+					_, err := c.CreatePartitions(ctx, &kafka.CreatePartitionsRequest{Addr: a})
+					return "", err
+				}},
+				{"DescribeConfigs", func(c *kafka.Client, a net.Addr) (string, error) {
+					_, err := c.DescribeConfigs(ctx, &kafka.DescribeConfigsRequest{Addr: a})
+					return "", err
+				}},
+				{"AlterConfigs", func(c *kafka.Client, a net.Addr) (string, error) {
+					_, err := c.AlterConfigs(ctx, &kafka.AlterConfigsRequest{Addr: a})
+					return "", err
+				}},
+				{"ListGroups", func(c *kafka.Client, a net.Addr) (string, error) {
+					_, err := c.ListGroups(ctx, &kafka.ListGroupsRequest{Addr: a})
+					return "", err
+				}},
+				{"DescribeGroups", func(c *kafka.Client, a net.Addr) (string, error) {
+					_, err := c.DescribeGroups(ctx, &kafka.DescribeGroupsRequest{Addr: a, GroupIDs: []string{"g"}})
+					return "", err
+				}},
+				{"DeleteGroups", func(c *kafka.Client, a net.Addr) (string, error) {
+					_, err := c.DeleteGroups(ctx, &kafka.DeleteGroupsRequest{Addr: a, GroupIDs: []string{"g"}})
+					return "", err
+				}},
+				{"FindCoordinator", func(c *kafka.Client, a net.Addr) (string, error) {
+					_, err := c.FindCoordinator(ctx, &kafka.FindCoordinatorRequest{Addr: a, Key: "g"})
+					return "", err
+				}},
+				{"JoinGroup", func(c *kafka.Client, a net.Addr) (string, error) {
+					_, err := c.JoinGroup(ctx, &kafka.JoinGroupRequest{Addr: a, GroupID: "g"})
+					return "", err
+				}},
+				{"SyncGroup", func(c *kafka.Client, a net.Addr) (string, error) {
+					_, err := c.SyncGroup(ctx, &kafka.SyncGroupRequest{Addr: a, GroupID: "g"})
+					return "", err
+				}},
+				{"Heartbeat", func(c *kafka.Client, a net.Addr) (string, error) {
+					_, err := c.Heartbeat(ctx, &kafka.HeartbeatRequest{Addr: a, GroupID: "g"})
+					return "", err
+				}},
+				{"LeaveGroup", func(c *kafka.Client, a net.Addr) (string, error) {
+					_, err := c.LeaveGroup(ctx, &kafka.LeaveGroupRequest{Addr: a, GroupID: "g"})
+					return "", err
+				}},
+				{"OffsetDelete", func(c *kafka.Client, a net.Addr) (string, error) {
+					_, err := c.OffsetDelete(ctx, &kafka.OffsetDeleteRequest{Addr: a, GroupID: "g"})
+					return "", err
+				}},
+				{"Fetch", func(c *kafka.Client, a net.Addr) (string, error) {
+					_, err := c.Fetch(ctx, &kafka.FetchRequest{Addr: a, Topic: topic, Partition: part, Offset: 0})
+					return "", err
+				}},
+				{"Produce", func(c *kafka.Client, a net.Addr) (string, error) {
+					_, err := c.Produce(ctx, &kafka.ProduceRequest{Addr: a, Topic: topic, Partition: part, RequiredAcks: kafka.RequireAll, Records: kafka.NewRecordReader(kafka.Record{Value: kafka.NewBytes([]byte("v"))})})
+					return "", err
+				}},
+				{"InitProducerID", func(c *kafka.Client, a net.Addr) (string, error) {
+					_, err := c.InitProducerID(ctx, &kafka.InitProducerIDRequest{Addr: a})
+					return "", err
+				}},
+				{"EndTxn", func(c *kafka.Client, a net.Addr) (string, error) {
+					_, err := c.EndTxn(ctx, &kafka.EndTxnRequest{Addr: a})
+					return "", err
+				}},
+				{"ApiVersions", func(c *kafka.Client, a net.Addr) (string, error) {
+					_, err := c.ApiVersions(ctx, &kafka.ApiVersionsRequest{Addr: a})
+					return "", err
+				}},
+				{"ElectLeaders", func(c *kafka.Client, a net.Addr) (string, error) {
+					_, err := c.ElectLeaders(ctx, &kafka.ElectLeadersRequest{Addr: a})
+					return "", err
+				}},
+				{"DescribeACLs", func(c *kafka.Client, a net.Addr) (string, error) {
+					_, err := c.DescribeACLs(ctx, &kafka.DescribeACLsRequest{Addr: a})
+					return "", err
+				}},
+				{"AlterPartitionReassignments", func(c *kafka.Client, a net.Addr) (string, error) {
+					_, err := c.AlterPartitionReassignments(ctx, &kafka.AlterPartitionReassignmentsRequest{Addr: a})
+					return "", err
+				}},
+				{"ListPartitionReassignments", func(c *kafka.Client, a net.Addr) (string, error) {
+					_, err := c.ListPartitionReassignments(ctx, &kafka.ListPartitionReassignmentsRequest{Addr: a})
+					return "", err
+				}},
+				{"IncrementalAlterConfigs", func(c *kafka.Client, a net.Addr) (string, error) {
+					_, err := c.IncrementalAlterConfigs(ctx, &kafka.IncrementalAlterConfigsRequest{Addr: a})
+					return "", err
+				}},
+				{"AddPartitionsToTxn", func(c *kafka.Client, a net.Addr) (string, error) {
+					_, err := c.AddPartitionsToTxn(ctx, &kafka.AddPartitionsToTxnRequest{Addr: a})
+					return "", err
+				}},
+				{"AddOffsetsToTxn", func(c *kafka.Client, a net.Addr) (string, error) {
+					_, err := c.AddOffsetsToTxn(ctx, &kafka.AddOffsetsToTxnRequest{Addr: a})
+					return "", err
+				}},
+				{"TxnOffsetCommit", func(c *kafka.Client, a net.Addr) (string, error) {
+					_, err := c.TxnOffsetCommit(ctx, &kafka.TxnOffsetCommitRequest{Addr: a})
+					return "", err
+				}},
+			}
+			if i == 0 {
+				for _, o := range others {
+					run(o.api, o.call)
+				}
+			} else {
+				o := others[r.Intn(len(others))]
+				run(o.api, o.call)
+			}
+		}
+	}
+}
+
 // genClusterMetadata: a cluster's metadata with distinct, non-empty topic names
 func genClusterMetadata(r *rand.Rand) *metadata.Response {
 	m := genMetadataResponse(r, false)
@@ -2019,6 +2434,8 @@ func main() {
 	tier2Metadata(r, *count)
 	tier2Offsets(r, *count/2)
 	tier2ConsumerOffsets(r, *count/2)
+	tier2Addresses(r, *count/20+1)
+	tierE2E(r, *count/100+3)
 	tier3Seek(r, *count)
 	tier3ReadOffset(r, *count)
 	tier3ReadPartitions(r, *count/2)
